@@ -87,7 +87,7 @@ def twin_cases(rng, cases, every=5):
     for k in range(4, len(cases), every):
         base = cases[k - 1]
         cases[k] = dict(base, freq=rng.uniform(30.0, 1500.0, base["freq"].shape) * (base["freq"] != 0), g=rng.uniform(-3.0, 4.0, base["g"].shape),
-                        kp=rng.uniform(-5.0, 5.0, base["kp"].shape), w=rng.uniform(0.1, 20.0, base["nq"]))
+                        kp=rng.uniform(-5.0, 5.0, base["kp"].shape), w=rng.uniform(0.1, 20.0, base["nq"]), twin=True)
     return cases
 
 
